@@ -503,9 +503,9 @@ theorem flushModP_triple {R : St → Prop} (hR : Stable R) (m : ModId) : Triple 
 theorem loopStartP_triple {R : St → Prop} (hR : Stable R) : Triple R loopStartP (fun _ => R) := by
   unfold loopStartP
   refine Triple.bind (Q := fun _ => R) (Triple.updCtx hR _ (fun _ => rfl) (fun _ => rfl)) fun _ => ?_
+  refine Triple.bind (Q := fun _ => R) (Triple.updCtx hR _ (fun _ => rfl) (fun _ => rfl)) fun _ => ?_
   refine Triple.bind (Q := fun _ => R) (iterMods_triple _ (evaluateP_triple hR)) fun _ => ?_
   refine Triple.bind (Q := fun _ => R) (Triple.quietS hR _ (quiet_tellSystem _ _ _ _)) fun _ => ?_
-  refine Triple.bind (Q := fun _ => R) (Triple.updCtx hR _ (fun _ => rfl) (fun _ => rfl)) fun _ => ?_
   exact Triple.retR _ (fun _ h => h)
 
 /-- `loop_stop` -/
